@@ -26,12 +26,16 @@ type c05CLICase struct {
 	Fill  int    `json:"source_fill_every"`
 	Arch  int    `json:"archive"`
 	NaN   bool   `json:"copy_nan"`
+	Big   bool   `json:"big,omitempty"`
 }
 
 func c05CLIEval(c *fw.Ctx, k c05CLICase) (sig, desc string) {
 	root := filepath.Join(c.Dir, "c05cli")
 	os.RemoveAll(root)
 	l := wsp.Layout{Archs: wsp.ParseLayout("1s:200s,100s:400s"), Method: 2, XFF: 0}
+	if k.Big { // more than 4096 points to write in one run
+		l = wsp.Layout{Archs: wsp.ParseLayout("1s:6000s,100s:12000s"), Method: 2, XFF: 0}
+	}
 	now := int64(1700000123)
 	src := EmptyRings(l)
 	dst := EmptyRings(l)
@@ -53,9 +57,12 @@ func c05CLIEval(c *fw.Ctx, k c05CLICase) (sig, desc string) {
 	dl := l
 	if k.Fault == "layout-mismatch" {
 		dl = wsp.Layout{Archs: wsp.ParseLayout("1s:200s,100s:500s"), Method: 2}
+		if k.Big {
+			dl = wsp.Layout{Archs: wsp.ParseLayout("1s:6000s,100s:12100s"), Method: 2}
+		}
 		dst = EmptyRings(dl)
 		dst[0][5] = wsp.Slot{T: uint32(now - now%1), V: 3}
-		dst[0] = wsp.Ring{uint32(now) % 200: {T: uint32(now), V: 3}}
+		dst[0] = wsp.Ring{uint32(now) % dl.Archs[0].N: {T: uint32(now), V: 3}}
 	}
 	(&BFile{L: dl, Rings: dst}).Write(dpath)
 	if k.Fault == "source-truncated" {
@@ -78,7 +85,7 @@ func c05CLIEval(c *fw.Ctx, k c05CLICase) (sig, desc string) {
 	}
 	err, pn := RunCommand(now, cmd)
 	post, _ := os.ReadFile(dpath)
-	ctx := fmt.Sprintf("%s fault=%s fill=1/%d archive=%d copy-nan=%v", k.CLI, k.Fault, k.Fill, k.Arch, k.NaN)
+	ctx := fmt.Sprintf("%s fault=%s fill=1/%d archive=%d copy-nan=%v big=%v", k.CLI, k.Fault, k.Fill, k.Arch, k.NaN, k.Big)
 	// whatever the outcome: the length and the header bytes of an existing file never change after its creation
 	if hs := dl.HeaderSize(); len(post) != len(pre) || !bytes.Equal(post[:hs], pre[:hs]) {
 		return "C05/cli/" + k.CLI + "/existing-destination-length-or-header-changed/" + k.Fault, fmt.Sprintf("%s: the existing destination had %d bytes and now has %d; header changed: %v", ctx, len(pre), len(post), len(post) < hs || !bytes.Equal(post[:hs], pre[:hs]))
@@ -134,6 +141,16 @@ func c05CLI(c *fw.Ctx) {
 							continue
 						}
 						k := c05CLICase{CLI: cli, Fault: fault, Fill: fill, Arch: arch, NaN: nan}
+						if nan && fill == 1 && arch == -1 || cli == "sum-copy" && fill == 1 && arch == -1 {
+							// once per command and fault: 6120 slots, more than 4096 points to write
+							kb := k
+							kb.Big = true
+							if sig, desc := c05CLIEval(c, kb); sig != "" {
+								c.Violate(sig, desc, 50, kb, "")
+							}
+							c.Count("evaluations", 1)
+							c.Count("cli_fault_cases", 1)
+						}
 						sig, desc := c05CLIEval(c, k)
 						c.Count("evaluations", 1)
 						c.Count("cli_fault_cases", 1)
